@@ -544,12 +544,23 @@ def _create_sbml_derived_parameters(*, model: Model, sbml_model: libsbml.Model) 
         _create_derived_parameter(sbml_model, name, dp)
 
 
+def _free_reference(name: str, taken: set[str]) -> str:
+    """Extend the name of a species reference until nothing else in the model has it."""
+    while name in taken:
+        name = f"{name}_"
+    taken.add(name)
+    return name
+
+
 def _create_sbml_reactions(
     *,
     model: Model,
     sbml_model: libsbml.Model,
 ) -> None:
     """Create the reactions for the sbml model."""
+    # Names of the model components and of the species references written so far.
+    # Two reactions can have a computed coefficient on the same species
+    taken = set(model.ids)
     for name, rxn in model.get_raw_reactions().items():
         sbml_rxn = sbml_model.createReaction()
         sbml_rxn.setId(_convert_id_to_sbml(id_=name, prefix="RXN"))
@@ -570,7 +581,7 @@ def _create_sbml_reactions(
                 case Derived():
                     # SBML uses species references for derived stoichiometries
                     # So we need to create a assignment rule and then refer to it
-                    reference = f"{compound_id}ref"
+                    reference = _free_reference(f"{compound_id}ref", taken)
                     _create_derived_parameter(sbml_model, reference, factor)
 
                     # The sign of a computed coefficient is only known at run time.
